@@ -247,6 +247,20 @@ func registerReflect(in map[string]intrinsic) {
 		return nil
 	})
 	val("Elem", func(p *Path, r *rval, a []value) value { return p.rvElem(r) })
+	val("Pointer", func(p *Path, r *rval, a []value) value {
+		// an opaque non-zero address (only used for naming / identity by otto)
+		switch x := p.rget(r).(type) {
+		case *ssa.Function:
+			if x == nil {
+				return Const(BV(64), 0)
+			}
+		case *value:
+			if x == nil {
+				return Const(BV(64), 0)
+			}
+		}
+		return Const(BV(64), 0x10000)
+	})
 	val("Len", func(p *Path, r *rval, a []value) value {
 		switch x := p.rget(r).(type) {
 		case []value:
